@@ -136,6 +136,8 @@ package dns
 // because it turned out not to escape a $ or a backslash - that backslash first, with the octet presented again
 //@   ghost si0 at "r.si++@1" r.si
 //@   exit plain: ret1 == nil && r.s[si0] != '\\' && r.s[si0] != '$' ==> ret0 == r.s[si0] || (ret0 == '\\' && r.si == si0 && !r.escape)
+//@   ghost esc0 at "r.si++@1" r.escape
+//@   exit owed: ret1 == nil && r.s[si0] != '\\' && r.s[si0] != '$' && esc0 ==> ret0 == '\\' && r.si == si0 && !r.escape
 //@ func (*generateReader).parseError [C06 C07]
 //@   requires r != nil && r.lex != nil && 1 <= r.si && r.si - 1 <= end && end <= len(r.s)
 //@   ensures r.eof && ret0 != nil
@@ -246,8 +248,17 @@ package dns
 //@ func NewRR [C07]
 
 // swept for panic-freedom without further annotation
-//@ func classToInt [C07]
-//@ func typeToInt [C07]
+// CLASSnnn / TYPEnnn: every code point 0..65535 can be written as a decimal number behind the keyword; the token
+// is accepted exactly when the digits behind it are a decimal number that fits 16 bits (strconv.ParseUint), and
+// the result is that number
+//@ func classToInt [C07 C05]
+//@   callsite "ParseUint" digits: same(arg0, token[5:]) && arg1 == 10 && arg2 == 16
+//@   exit num: called("ParseUint") ==> ret1 == (callres("ParseUint", 1) == nil) && (ret1 ==> ret0 == callres("ParseUint", 0))
+//@   exit short: !called("ParseUint") ==> len(token) < 6 && !ret1
+//@ func typeToInt [C07 C05]
+//@   callsite "ParseUint" digits: same(arg0, token[4:]) && arg1 == 10 && arg2 == 16
+//@   exit num: called("ParseUint") ==> ret1 == (callres("ParseUint", 1) == nil) && (ret1 ==> ret0 == callres("ParseUint", 0))
+//@   exit short: !called("ParseUint") ==> len(token) < 5 && !ret1
 //@ func locCheckNorth [C07]
 //@ func locCheckEast [C07]
 //@ func stringToNodeID [C07]
